@@ -8,6 +8,7 @@ import IodineModel.Drv.Slots
 import IodineModel.Drv.WireRead
 import IodineModel.Drv.WirePut
 import IodineModel.Drv.Server
+import IodineModel.Drv.ServerBytes
 import IodineModel.Drv.Client
 import IodineModel.Drv.Downstream
 import IodineModel.Drv.Negot
@@ -42,7 +43,11 @@ def step (st : DrvState) (line : String) : DrvState × String :=
     | some (sl, r) => ({ st with slots := sl }, r)
     | none =>
     -- `tick` and `tun` are ops of both session machines: the one configured last (`cfg` / `ccfg`) answers
+    -- the loop-iteration ops of the server are answered at byte level; they share `td` with `wd`
     let srvH : Option (DrvState × String) :=
+      match Drv.ServerBytes.handle st.srv st.td toks with
+      | some (sv, td, r) => some ({ st with srv := sv, td := td }, r)
+      | none =>
       (Drv.Server.handle st.srv toks).map fun (sv, r) =>
         ({ st with srv := sv, cli := if toks.head? == some "cfg" then { st.cli with configured := false } else st.cli }, r)
     let cliH : Option (DrvState × String) :=
